@@ -884,6 +884,37 @@ fn gen_block(rng: &mut Rng, cap: u64) -> Vec<LOp> {
     ops
 }
 
+/// growth that leaves spare capacity behind, then a widening that fits into it: rows appended to a fully filled
+/// rectangle (`Vec::resize` at least doubles the capacity), then columns added so that the widened rectangle
+/// still fits (an in-place widening that moves the rows inside the same buffer must not let a row's new place
+/// overlap cells not moved yet: seeded C05-m15), at small and medium sizes, all cells distinct
+fn gen_slack(rng: &mut Rng, cap: u64) -> Vec<LOp> {
+    let big = rng.chance(1, 4);
+    let h = if big { rng.range(20, 300) } else { rng.range(2, 9) };
+    let w = if big { rng.range(20, 300) } else { rng.range(2, 9) };
+    let r0 = *rng.pick(&[0u64, 0, 1, 5, 1000]);
+    let c0 = *rng.pick(&[0u64, 0, 1, 3, 700]);
+    let mut ops = vec![LOp::New(r0 as u32, c0 as u32, h as u32, w as u32), LOp::Fill((4 * h * w).min(60_000) as u32, rng.next())];
+    let (sr, sc, mut er, mut ec) = (r0, c0, r0 + h - 1, c0 + w - 1);
+    for _ in 0..rng.range(1, 3) {
+        let (hh, ww) = (er - sr + 1, ec - sc + 1);
+        // rows: at most as many as there are (the capacity then is twice the old length)
+        let d = rng.range(1, hh.min(4));
+        let slack_cols = (2 * hh * ww / (hh + d)).saturating_sub(ww);
+        // columns: inside the spare capacity (usually), or just beyond it
+        let dc = if slack_cols >= 1 && !rng.chance(1, 5) { rng.range(1, slack_cols) } else { slack_cols + 1 + rng.below(3) };
+        if (hh + d) * (ww + dc) > cap {
+            break;
+        }
+        ops.push(LOp::Set((er + d) as u32, rng.range(sc, ec) as u32, 1 + rng.below(1000) as usize));
+        ops.push(LOp::Fill((2 * d * ww).min(60_000) as u32, rng.next()));
+        ops.push(LOp::Set(rng.range(sr, er + d) as u32, (ec + dc) as u32, 1 + rng.below(1000) as usize));
+        er += d;
+        ec += dc;
+    }
+    ops
+}
+
 /// Some((sig, step text, what differs)) for the first observable difference
 fn run_large(lops: &[LOp]) -> Option<(String, String)> {
     let mut r: Range<usize> = Range::empty();
@@ -1084,9 +1115,13 @@ fn main() {
             histories.push(gen_history(&mut rng));
         }
         let cap: u64 = if args.thorough() { 1 << 21 } else { 1 << 20 };
-        let nl = if args.n.is_some() { (n / 150).max(4) } else { args.count(40, 1500) };
+        let nl = if args.n.is_some() { (n / 150).max(4) } else { args.count(64, 2000) };
         for _ in 0..nl {
-            larges.push(if rng.chance(1, 3) { gen_block(&mut rng, cap) } else { gen_large(&mut rng, cap) });
+            larges.push(match rng.below(4) {
+                0 => gen_block(&mut rng, cap),
+                1 => gen_slack(&mut rng, cap),
+                _ => gen_large(&mut rng, cap),
+            });
         }
     }
     let mut shrunk = 0;
